@@ -627,14 +627,14 @@ theorem bodyOKB_iff (reg : List (String × String)) (o : Opts) (i : Input) (r : 
 
 theorem validateResponse_selected (canon : String → String) (reg : List (String × String)) (o : Opts) (i : Input) (r : Resp)
     (hm : i.method ≠ "HEAD") (hs : skipStatus i.status = false) (he : i.responses.isEmpty = false)
-    (hsel : selected i.responses i.status = some r) :
+    (hsel : selected i.responses i.status = some r) (hr : r.resolved = true) :
     validateResponse canon reg o i =
       match firstErr (checkHeader canon o.woOff i.hdrs) (checkedHeaders r) with
       | some e => ⟨some e, some i.body⟩
       | none => checkBody reg o i r := by
   unfold validateResponse
   rw [firstSome_statusKeys, hsel]
-  simp only [hm, hs, he, if_false, Bool.false_eq_true]
+  simp only [hm, hs, he, hr, if_false, Bool.false_eq_true, Bool.not_true, Bool.false_and]
   cases firstErr (checkHeader canon o.woOff i.hdrs) (checkedHeaders r) <;> rfl
 
 end KinModel.Response
